@@ -14,7 +14,9 @@ Failing(c) == CASE c.fam = "access" -> A!C15_Failing(c.h)
                 [] c.fam = "bind"   -> B!C16_Failing(c.h)
                 [] c.fam = "config" -> C!C19_Failing(c.cfg, c.h)
                 \* partial nodes: the whole table for C01, the action rule alone for C18
-                [] c.fam = "defaults" -> IF Props = "C18" THEN D!Defaults_Failing(c.h) \cap {"partialAction"} ELSE D!Defaults_Failing(c.h)
+                [] c.fam = "defaults" -> IF Props = "C18" THEN D!Defaults_Failing(c.h) \cap {"partialAction"}
+                                         ELSE IF Props = "C17" THEN D!Defaults_Failing(c.h) \cap {"partialValues"}    \* values handed from phase to phase
+                                         ELSE D!Defaults_Failing(c.h)
 PropOf(c) == CASE c.fam = "access" -> "C15" [] c.fam = "bind" -> "C16" [] c.fam = "config" -> "C19" [] c.fam = "defaults" -> Props
 Detail(c) == CASE c.fam = "access" -> A!C15_BadCalls(c.h) [] c.fam = "bind" -> B!C16_BadCalls(c.h) [] OTHER -> {}
 Next ==
